@@ -110,7 +110,7 @@ func failureProblems(res *run.Result, exp *ref.Result, f *ref.Task, failProc str
 func c09(args []string) {
 	c := chk.New("C09", "fault_enumeration", args)
 	c.Build(false)
-	c.Rule("generated graphs x every chosen task as the failing one x failure kind {exit non-zero before/mid/after writing, killed by SIGKILL / SIGSEGV, the task's shell killed by SIGKILL / SIGTERM after writing, declared output not produced, output written under another name; Go-function variants; task cannot be formed: empty parameter value, missing tag, invalid output path (space, colon, empty, letters / digits outside ASCII)} while sibling tasks are running; oracle = exit status != 0, no completion report, no final path of the failing task exists, no start event of any transitive dependant; plus output paths that cannot be finalized: an absolute output area on another file system (symlink to /dev/shm), where the commands succeed but the rename out of the temp directory fails - the program must exit non-zero, must not report completion, and no downstream task may run; twelve tasks failing at the same moment with long error reports (each of them is judged); the failing task being the surplus item of unequal streams (IPSelectorSync inputs of different length; fewer parameter values than files); Go-function tasks also fail by panicking, also those that write through task.OutIP(port).Write() to a port declared through SetOut only, and Go functions that run a failing tool through the library's ExecCmd helper; a command line that is a list whose middle element fails after the outputs were written, or a multi-line script whose last line returns non-zero; a producer with only streamed outputs failing 0.5 s after it closed its streams. distinct_nontrivial = distinct (graph shape, failing task, failure kind) in which the failing command really ran (or, for unformable tasks, the workflow was started) and >= 1 sibling task executed")
+	c.Rule("[fan-in wired with OutPort.To] two upstream processes into one in-port, the slower one failing 0.7 s after the faster one closed its connection; generated graphs x every chosen task as the failing one x failure kind {exit non-zero before/mid/after writing, killed by SIGKILL / SIGSEGV, the task's shell killed by SIGKILL / SIGTERM after writing, declared output not produced, output written under another name; Go-function variants; task cannot be formed: empty parameter value, missing tag, invalid output path (space, colon, empty, letters / digits outside ASCII)} while sibling tasks are running; oracle = exit status != 0, no completion report, no final path of the failing task exists, no start event of any transitive dependant; plus output paths that cannot be finalized: an absolute output area on another file system (symlink to /dev/shm), where the commands succeed but the rename out of the temp directory fails - the program must exit non-zero, must not report completion, and no downstream task may run; twelve tasks failing at the same moment with long error reports (each of them is judged); the failing task being the surplus item of unequal streams (IPSelectorSync inputs of different length; fewer parameter values than files); Go-function tasks also fail by panicking, also those that write through task.OutIP(port).Write() to a port declared through SetOut only, and Go functions that run a failing tool through the library's ExecCmd helper; a command line that is a list whose middle element fails after the outputs were written, or a multi-line script whose last line returns non-zero; a producer with only streamed outputs failing 0.5 s after it closed its streams. distinct_nontrivial = distinct (graph shape, failing task, failure kind) in which the failing command really ran (or, for unformable tasks, the workflow was started) and >= 1 sibling task executed")
 	c.Assume("siblings that were already running may finalize their own outputs (os.Exit does not wait) - legal", "orphaned sibling commands are killed by the runner after the workflow process has exited")
 	rng := c.Rand("c09")
 	type job struct {
@@ -400,6 +400,25 @@ func c09(args []string) {
 		for k := 0; k < c.Pick(3, 9); k++ {
 			mode := []string{"exit-after-write", "exit-mid-write", "sigkill-self"}[k%3]
 			jobs = append(jobs, &job{s: s, exp: exp, f: f, mode: mode, bh: vproto.Behaviours{key: {"fail": mode, "sleep": "600"}}, cfg: Cfg{Buf: []int{128, 1}[k%2], Procs: 4, NoHooks: k%2 == 1}, idx: -1})
+		}
+	}
+	// fan-in of two upstream processes into one in-port, every connection made with OutPort.To: the slower upstream's
+	// task fails when the faster upstream has long finished and closed its connection
+	for variant := 0; variant < 2; variant++ {
+		in, o1 := []spec.PortDecl{{Name: "in"}}, []spec.PortDecl{{Name: "out"}}
+		s := &spec.Spec{Name: "faninto", MaxTasks: 4, Sources: map[string]string{"a0.txt": "a0\n", "b0.txt": "b0\n"}}
+		s.Procs = append(s.Procs, &spec.Proc{Name: "sa", Kind: spec.KFileSource, Files: []string{"a0.txt"}}, &spec.Proc{Name: "sb", Kind: spec.KFileSource, Files: []string{"b0.txt"}},
+			&spec.Proc{Name: "A", Kind: spec.KCmd, Cmd: spec.BuildCmd("A", in, o1, nil, nil, nil)}, &spec.Proc{Name: "B", Kind: spec.KCmd, Cmd: spec.BuildCmd("B", in, o1, nil, nil, nil)},
+			&spec.Proc{Name: "J", Kind: []string{spec.KCmd, spec.KGoFunc}[variant], Cmd: spec.BuildCmd("J", in, o1, nil, nil, nil)})
+		s.Conns = append(s.Conns, &spec.Conn{From: "sa.out", To: "A.in", Via: "to"}, &spec.Conn{From: "sb.out", To: "B.in", Via: "to"}, &spec.Conn{From: "A.out", To: "J.in", Via: "to"}, &spec.Conn{From: "B.out", To: "J.in", Via: "to"})
+		exp := evalRef(s, nil)
+		if exp.Err != "" {
+			c.Broken("reference cannot evaluate the fan-in shape: " + exp.Err)
+		}
+		f := exp.ByProc["B"][0]
+		for k := 0; k < c.Pick(3, 9); k++ {
+			mode := []string{"exit-after-write", "exit-mid-write", "sigkill-self"}[k%3]
+			jobs = append(jobs, &job{s: s, exp: exp, f: f, mode: mode, bh: vproto.Behaviours{f.Key: {"fail": mode, "sleep": "700"}}, cfg: Cfg{Buf: []int{128, 1}[k%2], Procs: 4, NoHooks: k%2 == 1}, idx: -1})
 		}
 	}
 	// a Go function that runs its tool through the library's ExecCmd helper; the tool fails in the middle of / after writing
